@@ -70,7 +70,7 @@ def _pop_paths(ctx):
     pop = ctx.func(PQ + ".c_pop")
     cfg = ctx.cfg(pop)
     try:
-        sums = pathfx.summaries(cfg, include_raise=True, opaque=("first_entry", "last_entry"))
+        sums = pathfx.summaries(cfg, include_raise=True, opaque=("first_entry", "last_entry"), feasible_only=False)  # feasibility is decided by sizes(): pop_back changes size()
     except OverflowError:
         return None, 0, pop, cfg
     SIZE = "self.heap.size()"
